@@ -15,6 +15,9 @@ K = 8
 
 def vlist(v):
     p = "request.listener == \"http\"" if v % 2 == 0 else "request.listener == \"nobody\""
+    if v % 3 == 0:
+        # a long first filter (a block list of a few kilobytes that never matches the probe)
+        p = "(%s) || request.target.host _: [%s]" % (p, ", ".join('"blocked-%d.example"' % i for i in range(60 + 40 * (v % 7))))
     l = [{"filter": p, "target": "a%d" % (v % K)}]
     # lists of different lengths (8, 7, .. 4 rules); every fourth has no catch-all at its end, so that whatever an implementation
     # keeps of a longer predecessor decides the probe - which no version does
